@@ -368,7 +368,7 @@ func runC11(r *ev.Run, rep *ev.ReplayDoc) ev.Summary {
 	env.Dir = d
 	defer env.Cleanup()
 	sum := ev.Summary{
-		Rule: "seeded message specs (all file sources incl. os files, read-seekers on os.File, fs.FS, templates; all file encodings, incl. quoted-printable assigned to File.Enc directly; S/MIME on a share) x operation sequences of length 2-5 over {WriteTo, Write, NewReader+ReadAll, 7-byte Reads, UpdateReader, a Reader read in part and then refreshed by UpdateReader, WriteToFile (to a new path and over an existing longer file), WriteToTempFile, WriteToSkipMiddleware, Send via reference server, failing-sink render, failing-producer render}; all pairs of operations enumerated, longer sequences sampled. Every successful output must equal the first successful output byte for byte. non-trivial = message has a file or >=2 parts; distinct by (shape, ops)",
+		Rule: "seeded message specs (all file sources incl. os files, read-seekers on os.File, fs.FS, templates; all file encodings, incl. quoted-printable assigned to File.Enc directly; S/MIME on a share, message middlewares on another) x operation sequences of length 2-5 over {WriteTo, Write, NewReader+ReadAll, 7-byte Reads, UpdateReader, a Reader read in part and then refreshed by UpdateReader, WriteToFile (to a new path and over an existing longer file), WriteToTempFile, WriteToSkipMiddleware, Send via reference server, failing-sink render, failing-producer render}; all pairs of operations enumerated, longer sequences sampled. Every successful output must equal the first successful output byte for byte. non-trivial = message has a file or >=2 parts; distinct by (shape, ops)",
 		Assumptions: []string{
 			"for Send the payload is what the reference server committed (dot-unstuffed); contents of 8bit/7bit entities are canonical CRLF so that SMTP's bare-LF canonicalisation does not blur the comparison",
 			"S/MIME: the outer boundary and the signature legitimately change per render; the top-level header (boundary masked) and the signed entity are compared",
@@ -433,6 +433,9 @@ func runC11(r *ev.Run, rep *ev.ReplayDoc) ev.Summary {
 		if rng.Intn(8) == 0 {
 			s.SMIME = gen.Pick(rng, []string{"rsa", "ecdsa"})
 			s.WithInt = rng.Intn(2) == 0
+		} else if rng.Intn(7) == 0 {
+			// message middlewares: every render applies them (one works in place and is idempotent, one returns a copy)
+			s.Middleware = [][]string{{"copy-body"}, {"footer"}, {"header", "copy-body"}}[rng.Intn(3)]
 		}
 		cases = append(cases, c11Case{Spec: s, Ops: genC11Ops(rng, &s, 2+rng.Intn(4))})
 	}
